@@ -8,6 +8,10 @@ CLAIMED = {
    technique="deterministic simulation: seeded sealer/opener nodes over a faulty simulated transport and disk (loss, duplication, reordering, corruption, migration), checked per event against a two-counter reference model",
    text="Seeded search over histories of one sealing and one opening context (seal, in/out-of-order/duplicate/corrupted delivery, garbage and foreign records, marshal-unmarshal migration of either side, export, heal phase) from sequence numbers at every carry boundary up to 2^96-1; after every event the contexts' marshalled sequence numbers, every ciphertext (= stdlib AEAD under base_nonce XOR i), every open verdict and every export are compared with a reference model. Evidence, not proof: sampled histories.",
    note="Trusts crypto/aes+GCM, x/crypto chacha20poly1305 and hkdf; reads key material through circl's documented marshalled context format."),
+ "C07": dict(engine="netsim", level="exploration", ref="DESIGN.md §3 C07",
+   technique="deterministic simulation: circl sender/receiver nodes against an RFC 9180 reference-model peer; faults = receiver misconfiguration, corrupted enc in flight, entropy-device failure, object reuse across setups",
+   text="Seeded search over suite x mode x keys x info/psk/psk_id x traffic; every run compares enc, key, base nonce, exporter secret, every ciphertext and every export with a reference model written from RFC 9180 (validated at start-up against the RFC's base-mode vectors), lets each side open what the other seals, and injects one fault: a receiver differing in skR/info/psk/psk_id/mode/pkS must fail setup or fail every open and export different secrets; RFC 9180 5.1 PSK rule cases must be refused; an entropy error must not yield a context.",
+   note="Trusts crypto/ecdh, x/crypto hkdf/chacha20poly1305, stdlib AES-GCM; model's PSK/auth paths have no published vector in this sandbox (base mode has); inner KEM of the two hybrid KEMs is circl's own."),
 }
 
 NA = {
